@@ -31,6 +31,25 @@
 //! Deviations from DESIGN.md §C23: lives in crate vf-prune; OR / NOT are not generated at expression level
 //! (`check_support` rejects them, `propagate_constraints` answers NotImplemented for TRUE OR); Decimal division
 //! is not generated (result scale rules are the subject of C34/C47).
+//!
+//! Genuine defects found on the unchanged tree (minimal cases under /verif/regressions/C23/c23/, open entries in
+//! /verif/known_findings.json, signatures in `known_sig`; candidate repairs /verif/fixes/C23-*.diff where small):
+//! 1. `mul-both-contain-zero-overflow` — Int8 [-2,127] * [0,2] = [-4,0] (overflowed corner dropped).       fix: yes
+//! 2. `int-div-upper-zero` — Int8 [5,10] / [-5,0] = [NULL,-2], missing -1 (zero_point trick for integers). fix: no
+//! 3. `int-div-expr` — propagation inverts truncating division: `c0 / 2 = 3`, c0 in [0,10] -> [6,6].         fix: no
+//! 4. `int-mul-expr` — propagation divides by an interval with 0 as an endpoint: `c0 + c0 <= -1 * c0`,
+//!    c0 in [0,32767] -> Infeasible although c0 = 0 satisfies it.                                            fix: no
+//! 5. `lossy-cast-propagation` — `CAST(c0 AS Int32) = 3`, c0 in [0.0,4.0] -> [3,3] (3.5 lost).              fix: no
+//! 6. `ts-minus-duration-overflow-sign` — Timestamp [NULL,MAX] - Duration [-1,NULL] = [NULL,MIN].          fix: yes
+//! 7. `given-false` — update_ranges(.., FALSE): `=`/uncertain parents -> Infeasible; > >= < <= swap children. fix: yes
+//! 8. `nullable-distinct-maybenull-notnull` — ([0,0] U {NULL}) IS DISTINCT FROM [0,0] = certainly FALSE.     fix: yes
+//! 9. `decimal-mul-unbounded-mixed-type` — Decimal128 mul with an unbounded side: endpoints of two types
+//!    (debug assertion panics).                                                                              fix: no
+//! Not a defect (oracle corrected, see `fp_exact`): float absorption (1.7e38f + 1.0f == 1.7e38f) makes exact
+//! inversion impossible; only assignments whose float evaluation is exact are claimed to survive propagation.
+//!
+//! Sensitivity probes: see PROBES at the end of this header (patches in crates/vf-prune/probes/).
+//! PROBES-PLACEHOLDER
 use std::sync::Arc;
 
 use arrow::array::ArrayRef;
@@ -1601,7 +1620,7 @@ impl Property for C23 {
         prop_oneof![4 => op, 1 => cast, 5 => expr].boxed()
     }
     fn budget(&self, tier: Tier) -> Budget {
-        Budget::new(tier.pick(32_000, 3_000_000), tier.pick(8, 16)).min_nontrivial(tier.pick(2_000, 100_000)).discard_cap(0.3)
+        Budget::new(tier.pick(32_000, 1_500_000), tier.pick(8, 16)).min_nontrivial(tier.pick(2_000, 100_000)).discard_cap(0.3)
     }
     fn rule(&self) -> String {
         "operator cases (type x operator x two endpoint-pattern intervals, exhaustive value grid for Int8/UInt8, sampled values otherwise), cast cases, expression cases (typed tree x column ranges x sampled assignments); \
